@@ -67,10 +67,23 @@ func zzVarint(b []byte, v uint64, width int) []byte {
 var zzWidths = []int{1, 2, 4, 8}
 
 func zzAddrLens() []int {
-	if verifThorough() {
-		return []int{1, 2, 63, 64, 65, 2047, 2048}
+	return []int{1, 2, 63, 64, 65, 2047, 2048}
+}
+
+// zzField draws a field of n bytes: all symbolic when short (thorough: always),
+// first and last four bytes symbolic and the rest fixed when long
+func zzField(label string, n int) []byte {
+	if n <= 65 || verifThorough() {
+		return verifBytes(label, n)
 	}
-	return []int{1, 2, 63, 64, 65}
+	b := make([]byte, n)
+	for i := range b {
+		b[i] = byte('a' + i%23)
+	}
+	e := verifBytes(label+"Ends", 8)
+	copy(b[:4], e[:4])
+	copy(b[n-4:], e[4:])
+	return b
 }
 
 func zzSameBytes(a string, b []byte) bool {
@@ -87,10 +100,10 @@ func zzSameBytes(a string, b []byte) bool {
 // What WriteTCPRequest writes, ReadTCPRequest reads back, consuming exactly the
 // frame, for every chunking mode and with payload following.
 //
-//verif:harness kind=api unwind=4200 bound=addr∈{1,2,63,64,65}(+2047,2048),pad∈{64,65,511},chunk∈{1,half,all}
+//verif:harness kind=api unwind=4200 bound=addr∈{1,2,63,64,65,2047,2048}(long:ends-symbolic(quick)/all-symbolic(thorough)),pad∈{64,65,511},chunk∈{1,half,all}
 func ZZ_C04_RequestRoundTrip() {
 	lens := zzAddrLens()
-	addr := verifBytes("addr", lens[verifChoice("addrLen", len(lens))])
+	addr := zzField("addr", lens[verifChoice("addrLen", len(lens))])
 	var w bytes.Buffer
 	verifAssert(WriteTCPRequest(&w, string(addr)) == nil, "write ok")
 	frame := w.Bytes()
@@ -105,10 +118,10 @@ func ZZ_C04_RequestRoundTrip() {
 	verifCover("roundtrip")
 }
 
-//verif:harness kind=api unwind=4200 bound=msg∈{0,1,63,64,65}(+2047,2048),pad∈{128,129,1023},chunk∈{1,half,all}
+//verif:harness kind=api unwind=4200 bound=msg∈{0,1,63,64,65,2047,2048}(long:ends-symbolic(quick)/all-symbolic(thorough)),pad∈{128,129,1023},chunk∈{1,half,all}
 func ZZ_C04_ResponseRoundTrip() {
 	lens := append([]int{0}, zzAddrLens()...)
-	msg := verifBytes("msg", lens[verifChoice("msgLen", len(lens))])
+	msg := zzField("msg", lens[verifChoice("msgLen", len(lens))])
 	ok := verifBool("ok")
 	var w bytes.Buffer
 	verifAssert(WriteTCPResponse(&w, ok, string(msg)) == nil, "write ok")
